@@ -141,6 +141,16 @@ reg(
     "DESIGN.md 5/C13",
 )
 
+reg(
+    "C05",
+    "bounded exhaustive enumeration of query histories (1-3 consecutive queries on different data, all labelings of small pools x candidate modes x batch sizes, fit and pre-fit modes) on one real strategy + model object; state fingerprints of inputs, caller model, get_params, pickle, clone-vs-fresh differential",
+    "Every pool strategy variant (incl. configurations that reach lazily resolved None defaults) is driven through histories of "
+    "queries; after every query the input arrays are compared byte-wise, the caller's model object(s) and get_params(deep=True) by "
+    "full-state fingerprint, the strategy is pickled, and after every history a clone is compared with a fresh strategy.",
+    POOL_NOTE + " Estimator-valued parameters are compared by type and own parameters (their fitted state is not a parameter).",
+    "DESIGN.md 5/C05",
+)
+
 
 def main():
     props = [json.loads(l) for l in open(os.path.join(HOME, "properties.jsonl"))]
